@@ -545,3 +545,84 @@ Proof.
   - intros o Ho Hp. apply Hresp; [|exact Hdn|rewrite (r_names _ _ _ R); exact Hp].
     apply Harcs. unfold decl_arcs. apply in_or_app. right. apply in_map_iff. exists o. split; [reflexivity|exact Ho].
 Qed.
+
+(* ---------- predicate directives and tween histories through the same invariant *)
+Lemma pred_directive_add k n v more less s : pred_directive k n v more less s = add n v more less s.
+Proof.
+  unfold pred_directive, predlist_add, pd_straight.
+  assert (E1 : pd_view_straight = true) by reflexivity.
+  assert (E2 : pd_route_straight = true) by reflexivity.
+  assert (E3 : pd_subscriber_straight = true) by reflexivity.
+  assert (E4 : pd_inner_straight = true) by reflexivity.
+  assert (E5 : pl_after_is_more_than = true) by reflexivity.
+  rewrite E1, E2, E3, E4, E5. destruct k; reflexivity.
+Qed.
+
+Lemma final_state_app s a b : final_state s (a ++ b) = final_state (final_state s a) b.
+Proof. unfold final_state. apply fold_left_app. Qed.
+
+Lemma preds_scenario_ops k adds :
+  preds_scenario k adds = final_state (new_sorter cfg_plain) (pred_ops k adds).
+Proof.
+  unfold preds_scenario, pred_ops. rewrite final_state_app.
+  set (s0 := fold_left _ (pd_defaults k) _).
+  assert (E0 : s0 = final_state (new_sorter cfg_plain) (map (fun n => OAdd n 0%N HNone HNone) (pd_defaults k))).
+  { unfold s0, final_state. generalize (new_sorter cfg_plain).
+    induction (pd_defaults k) as [|x l IH]; intros s; simpl; [reflexivity|].
+    rewrite pred_directive_add. apply IH. }
+  rewrite <- E0. generalize s0. unfold final_state.
+  induction adds as [|[[[n f] m] l] adds IH]; intros s; simpl; [reflexivity|].
+  rewrite pred_directive_add. apply IH.
+Qed.
+
+(* every order a predicate list can take after any add_*_predicate calls is accepted
+   by the judge for the declarations  weighs_more_than = after, weighs_less_than = before *)
+Theorem preds_scenario_judged k adds :
+  judge cfg_plain (decls_of cfg_plain (pred_ops k adds)) (sorted (preds_scenario k adds)) = true.
+Proof. rewrite preds_scenario_ops. apply judge_sorted. apply Rep_reachable. Qed.
+
+Lemma add_implicit_sorter n f u o t : tw_sorter (add_implicit n f u o t) = add n f u o (tw_sorter t).
+Proof. unfold add_implicit. assert (E : tw_after_is_under = true) by reflexivity. rewrite E. reflexivity. Qed.
+
+Lemma tweens_init_rep ex : Rep cfg_tweens (tw_sorter (tweens_init ex)) tweens_init_decls.
+Proof.
+  unfold tweens_init, tweens_init_decls.
+  assert (E : forall l t, tw_sorter (fold_left (fun t nf => add_explicit (fst nf) (snd nf) t) l t) = tw_sorter t).
+  { induction l as [|x l IH]; intros t; simpl; [reflexivity|]. rewrite IH. reflexivity. }
+  rewrite E. clear E.
+  assert (G : forall l t ds, Rep cfg_tweens (tw_sorter t) ds ->
+            Rep cfg_tweens (tw_sorter (fold_left (fun t n => add_implicit n 0%N HNone HNone t) l t))
+                (fold_left (spec_op cfg_tweens) (map (fun n => OAdd n 0%N HNone HNone) l) ds)).
+  { induction l as [|x l IH]; intros t ds R; cbn [fold_left map]; [exact R|].
+    apply IH. rewrite add_implicit_sorter.
+    exact (Rep_op cfg_tweens (tw_sorter t) ds (OAdd x 0%N HNone HNone) R). }
+  apply G. apply Rep_new.
+Qed.
+
+(* the states of a Tweens utility at each look (implicit() or a request), with the declarations then in force *)
+Fixpoint hist_looks (t : tweens) (ds : list decl) (evs : list tevent) : list (tweens * list decl) :=
+  match evs with
+  | [] => []
+  | TAdd (n, f, u, o) :: r =>
+      if N.eqb (add_tween_check n u o) 0
+      then hist_looks (add_implicit n f u o t) (spec_add cfg_tweens n f u o ds) r
+      else hist_looks t ds r
+  | _ :: r => (t, ds) :: hist_looks t ds r
+  end.
+
+(* however additions (incl. re-additions) and looks are interleaved, every look sees an
+   implicit order / error that the judge accepts for the declarations in force at that moment *)
+Theorem tweens_history_judged ex evs :
+  Forall (fun td => judge cfg_tweens (snd td) (implicit (fst td)) = true)
+         (hist_looks (tweens_init ex) tweens_init_decls evs).
+Proof.
+  assert (G : forall evs t ds, Rep cfg_tweens (tw_sorter t) ds ->
+            Forall (fun td => judge cfg_tweens (snd td) (implicit (fst td)) = true) (hist_looks t ds evs)).
+  { clear evs. induction evs as [|e evs IH]; intros t ds R; simpl; [constructor|].
+    destruct e as [[[[n f] u] o]| |].
+    - destruct (N.eqb (add_tween_check n u o) 0); [|apply IH; exact R].
+      apply IH. rewrite add_implicit_sorter. exact (Rep_add cfg_tweens (tw_sorter t) ds n f u o R).
+    - constructor; [apply judge_sorted; exact R|apply IH; exact R].
+    - constructor; [apply judge_sorted; exact R|apply IH; exact R]. }
+  apply G. apply tweens_init_rep.
+Qed.
